@@ -25,13 +25,14 @@ MAX_STEPS = 20000
 @st.composite
 def cases(draw, tier="quick"):
     flav = draw(st.sampled_from(["ssp", "dproper", "dproper"]))
+    rv = draw(st.sampled_from([None, None, None, [0.1, 0.2, 0.3, -0.1, 0.7], [1e-10, 2e-10, -1e-10, 0]]))
     spec = draw(mdp_specs(flav, min_states=2, max_states=6 if tier == "thorough" else 5, allow_explicit=False,
-                          absorbing_kinds=("n", "n", "n", "n", "abs")))
+                          absorbing_kinds=("n", "n", "n", "n", "abs"), reward_values=rv))
     iq = draw(st.one_of(st.sampled_from([0, 0.0, 3, -2.5, 1.5]),
                         st.lists(st.sampled_from([-2.0, 0.0, 1.0, 3.0, 0.5]), min_size=2, max_size=3)))
     return {
         "mdp": spec, "learner": draw(st.sampled_from(LEARNERS)),
-        "step_size": draw(st.sampled_from([0, 0.1, 0.25, 0.5, 1, 1.0])),
+        "step_size": draw(st.sampled_from([0, 0.1, 0.25, 0.5, 1, 1.0, 1e-10, 0.01])),
         "rand_choose": draw(st.sampled_from([0, 0.0, 0.1, 0.5, 1])),
         "softmax_temp": draw(st.sampled_from([0, 0.0, 0.5, 2.0])),
         "initial_q": iq, "episodes": draw(st.integers(1, 8)),
@@ -257,5 +258,28 @@ def prop_td(case, ctx):
     ctx.nontrivial(case["episodes"] >= 2 and any(v >= 2 for v in visits.values()) and nonzero_td)
 
 
-PROPS = [Prop("td", lambda tier: cases(tier), prop_td, quick=6000, thorough=120000,
+@st.composite
+def reuse_cases(draw, tier="quick"):
+    kw = dict(min_states=2, max_states=5, allow_explicit=False, absorbing_kinds=("n", "n", "n", "abs"), schemes=("int",))
+    return {"a": draw(mdp_specs("dproper", **kw)), "b": draw(mdp_specs("dproper", **kw)),
+            "learner": draw(st.sampled_from(LEARNERS)), "seed": draw(st.integers(0, 10 ** 6)),
+            "episodes": draw(st.integers(1, 5)), "initial_q": draw(st.sampled_from([0, 2.0, -1.5]))}
+
+
+def prop_reuse(case, ctx):
+    import msdm.algorithms.tdlearning as td
+    from vpm.checks.reuse import check_reuse, policy_table
+    ma, _ = build_mdp(case["a"])
+    mb, _ = build_mdp(case["b"])
+    make = lambda: getattr(td, case["learner"])(episodes=case["episodes"], step_size=0.5, rand_choose=0.3,
+                                               initial_q=case["initial_q"], seed=case["seed"])
+    check_reuse(ctx, "C10.reuse", make, lambda l, m: l.train_on(m),
+                lambda r, m: {"q": {s: dict(row) for s, row in r.q_values.items()},
+                              "pi": policy_table(r.policy, list(m.state_list))}, ma, mb)
+    ctx.nontrivial(case["a"] != case["b"])
+
+
+PROPS = [Prop("reuse", lambda tier: reuse_cases(tier), prop_reuse, quick=400, thorough=24000,
+              doc="a learner object reused on a second MDP gives the same result as a fresh one"),
+         Prop("td", lambda tier: cases(tier), prop_td, quick=6000, thorough=360000,
               doc="recorded experience is valid and the returned Q-table equals the update rule folded over it")]
